@@ -226,8 +226,8 @@ def c04_cases(tier, seed):
                 if not r["quiet"]:
                     yield ("noquiet", None, case_summary(rec, {"failure": "engine did not go quiet within the step cap"}), None)
                     continue
-                line = "c04 | %s | %s | %s | %s | %s" % (enc_tree(r["base"], fold), " ".join(op_token(o) for o in r["opsL"]),
-                                                         " ".join(op_token(o) for o in r["opsR"]), enc_tree(r["L"], fold), enc_tree(r["R"], fold))
+                line = "c04 | %s | %s | %s | %s | %s" % (enc_tree(r["base"], fold), " ".join(op_token(o, fold) for o in r["opsL"]),
+                                                         " ".join(op_token(o, fold) for o in r["opsR"]), enc_tree(r["L"], fold), enc_tree(r["R"], fold))
                 yield ("line", line, case_summary(rec), (fl, tuple(rec.ops)))
             finally:
                 w.close()
